@@ -45,8 +45,10 @@ fn ty_width(ty: &str) -> u64 {
 }
 
 impl G {
+    /// `util::Rng::new(s)` and `Rng::new(s + 1)` produce the same stream shifted by one draw, so the
+    /// seed is hashed first to give every `VERIF_SEED` an unrelated stream.
     fn new(seed: u64) -> G {
-        G { rng: Rng::new(seed), lines: Vec::new(), id: String::new(), size: 0, rpos: 0, wpos: 0 }
+        G { rng: Rng::new(fnv(&format!("binops-{}", seed))), lines: Vec::new(), id: String::new(), size: 0, rpos: 0, wpos: 0 }
     }
     fn start(&mut self, id: String, big: bool) {
         self.id = id;
